@@ -6,6 +6,7 @@ Oracle (implementation only, independent of the naming scheme): every sensor car
 replacing each device id by the name of the sensor definition it designates (rigs: by the set of their members), the merged
 tables must equal the disjoint union of the inputs' tables, counts must add up, fresh ids must be pairwise distinct.
 """
+import copy
 import json
 import os
 import shutil
@@ -21,7 +22,8 @@ TITLE = 'Merging with renamed identifiers is a disjoint union, consistently rena
 GEN = ['MergeDispatch']
 RULE = ('each case = 1..4 generated datasets drawing sensor/rig ids from the same 3-id pool (identical ids across inputs), 30% of the inputs using identifiers of the form sensor<N> / rig<N> themselves (an earlier merge output), each '
         'part independently missing in each input (so that a later input has a table an earlier one lacks), rigs of sensors, a '
-        'random skip list, through merge_remap or the merge tool; distinct non-trivial = distinct cases in which two inputs share '
+        'random skip list, through merge_remap or the merge tool; in 60% of the cases a later input STARTS a record table with the '
+        '(timestamp, device) an earlier input ENDED it with (sequences recorded back to back); distinct non-trivial = distinct cases in which two inputs share '
         'an identifier and some input lacks a part that a later input has')
 ASSUMPTIONS = [
     'fresh identifiers are rendered sensor<n> / rig<n> with decimal n (injective rendering is trusted)',
@@ -71,6 +73,29 @@ def gen_case(rng, tier):
             for sid, s in d['sensors'].items():
                 s['name'] = f'in{i}:{sid}'
         dsets.append(d)
+    # sequences recorded back to back with the same devices: a later input STARTS (its first record of a kind) with the (timestamp,
+    # device id) an earlier input ENDED with — before renaming they are the same key, after it two different sensors
+    kinds = {'records_wifi': 'wifi', 'records_bluetooth': 'bluetooth', 'records_gnss': 'gnss', 'records_lidar': 'lidar',
+             'records_accelerometer': 'accelerometer', 'records_gyroscope': 'gyroscope', 'records_magnetic': 'magnetic'}
+    cands = [(part, i) for part in kinds for i in range(n - 1) if dsets[i].get(part)]
+    if cands and rng.random() < 0.6:
+        part, i = rng.choice(cands)
+        j = rng.randrange(i + 1, n)
+        src, dst = dsets[i], dsets[j]
+        src[part].sort(key=lambda r: (r[0], r[1]))          # "ended with": last in every order an implementation may iterate in
+        ts, dev, payload = src[part][-1]
+        ok = dev not in (dst['rigs'] or {}) and (dev not in dst['sensors'] or dst['sensors'][dev]['type'] == kinds[part])
+        if ok:
+            if dev not in dst['sensors']:
+                dst['sensors'][dev] = dict(src['sensors'][dev], name=f'in{j}:{dev}')
+            seen = {(ts, dev)}
+            shifted = [[ts, dev, copy.deepcopy((dst.get(part) or [[0, 0, payload]])[0][2])]]
+            for r in sorted(dst.get(part) or [], key=lambda r: (r[0], r[1])):
+                r = [r[0] + ts + 1, r[1], r[2]]                 # the rest of the later sequence comes after
+                if (r[0], r[1]) not in seen:
+                    seen.add((r[0], r[1]))
+                    shifted.append(r)
+            dst[part] = shifted
     skip = [t for a, t in mc.TYPE_OF_ATTR.items() if a in mc.SIMPLE and rng.random() < 0.08]
     return {'datasets': dsets, 'skip': skip, 'via_tool': rng.random() < 0.25}
 
